@@ -31,6 +31,7 @@ def main(tier: str, seed: int) -> int:
         swp = swp[:800]
     for j in range(16):
         shards.append({"prop": PROP, "judges": JUDGES, "modes": ["I", "GI", "O", "GO"], "source": "stackswap", "indices": swp[j::16], "seed": E.seed_int(PROP, run.seed, "sw", j), "cap": 20, "maxlen": 1, "sample_at": 10**9})
+    shards += E.scale_shards(PROP, run, JUDGES)
     E.execute(run, shards)
     return run.finish(
         rule=(
